@@ -77,6 +77,10 @@ TABLE = {
         ("filter-index-instead-of-take-silent", DF, "            yield colname, np.take(column, rows)", "            yield colname, column[rows].copy()", S, None),
     ],
     "C03": [
+        ("negate-integer-keys (D22 reverted)", DF, "            if column.is_integer() and not column.is_timedelta():\n", "            if False:\n", V, "ORD-key"),
+        ("complement-timedelta-keys (timedelta64 is an integer to NumPy)", DF, "            if column.is_integer() and not column.is_timedelta():\n", "            if column.is_integer():\n", V, "ORD-key"),
+        ("float-before-negation", DF, "            if dir > 0:\n                return column\n", "            if dir < 0 and column.is_integer():\n                column = column.as_float()\n            if dir > 0:\n                return column\n", V, "ORD-key"),
+        ("negation-spelled-differently (still float only)", DF, "            return -column\n", "            return column * -1\n", S, None),
         ("lexsort-keys-not-reversed", DF, "sort_key(*x) for x in reversed(colname_dir_pairs.items())))", "sort_key(*x) for x in colname_dir_pairs.items()))", V, "ORD-1"),
         ("rank-ordinal", DF, "column = column.rank(method=\"min\")", "column = column.rank(method=\"ordinal\")", V, "ORD-1"),
         ("dir-not-validated", DF, "            if dir not in [1, -1]:\n                raise ValueError(\"dir should be 1 or -1\")\n            column = self[colname]", "            column = self[colname]", V, "DIR"),
@@ -116,6 +120,8 @@ TABLE = {
         ("take-instead-of-index-silent", DF, "            yield colname, column[keep].copy()", "            yield colname, np.take(column, keep)", S, None),
     ],
     "C07": [
+        ("vector-std-drops-ddof", AG, "    return np.std(x, ddof=ddof).item() if len(x) >= 2 else np.nan", "    return np.std(x).item() if len(x) >= 2 else np.nan", V, "SIB-7"),
+        ("numba-std-for-nonzero-ddof", AG, "            if ddof == 0:\n                # Numba doesn't support the ddof argument,\n                # so can only handle the default ddof=0.\n                f = (generic, generic_numba)\n                f = select(f, data, x)(np.std)", "            if ddof != 0:\n                # Numba doesn't support the ddof argument,\n                # so can only handle the default ddof=0.\n                f = (generic, generic_numba)\n                f = select(f, data, x)(np.std)", V, "SIB-7"),
         ("std-nrequired-1", AG, "                     default=np.nan,\n                     nrequired=2)\n\n        aggregate.group_aware = True\n        return aggregate\n    x = handle_na(x, drop_na)\n    return np.std(",
          "                     default=np.nan,\n                     nrequired=1)\n\n        aggregate.group_aware = True\n        return aggregate\n    x = handle_na(x, drop_na)\n    return np.std(", V, "SIB-7"),
         ("mean-default-zero", AG, "    return np.mean(x).item() if len(x) >= 1 else np.nan", "    return np.mean(x).item() if len(x) >= 1 else 0", V, "SIB-7"),
@@ -127,6 +133,9 @@ TABLE = {
          "            f = select(f, data, x)(np.sum)\n            aggregate.default = 0\n            return f(data[x],\n                     data._group_,\n                     drop_na=(\n                         data[x].is_na().any()),", V, "SIB-7"),
     ],
     "C08": [
+        ("numba-na-test-without-timedelta (D24 reverted)", AG, "    if isinstance(x, (types.NPDatetime, types.NPTimedelta)):", "    if isinstance(x, types.NPDatetime):", V, "SIB-9"),
+        ("third-optional-list-kernel", AG, "            out.append(function(xg) if len(xg) >= nrequired else default)", "            out.append(function(xg) if len(xg) >= nrequired else None)", V, "NJIT-optional"),
+        ("typed-default-for-max (one finding less, none new)", AG, "                     default=None,\n                     nrequired=1)\n\n        aggregate.group_aware = True\n        return aggregate\n    x = handle_na(x, drop_na)\n    return np.amax(x)", "                     default=np.nan,\n                     nrequired=1)\n\n        aggregate.group_aware = True\n        return aggregate\n    x = handle_na(x, drop_na)\n    return np.amax(x)", S, None),
         ("pair-swapped", AG, "            f = (nth_apply, nth_apply_numba)", "            f = (nth_apply_numba, nth_apply)", V, "SIB-8"),
         ("scanner-differs", AG, "        if j < n and group[j] == group[i]: continue\n        xij = x[i:j]\n        if drop_na:\n            xij = xij[~is_na_numba(xij)]",
          "        if j < n and group[j] == group[i]: continue\n        xij = x[i:j+0]\n        if drop_na:\n            xij = xij[~is_na_numba(xij)]", V, "SIB-8"),
